@@ -103,3 +103,5 @@ replace github.com/AliyunContainerService/terway => /repo
 replace github.com/vishvananda/netlink => github.com/BSWANG/netlink v1.0.1-0.20220803105814-1f63f9d61229
 
 replace github.com/boltdb/bolt => ../third_party/bolt
+
+replace golang.org/x/sync => ../third_party/xsync
